@@ -19,20 +19,21 @@ def queries(tier):
     # (paths, ops): path index into {a, a.b, a.c, b, a.b.c, a.b.a}; op 0 assign, 1 remove, 2 query, +4 = through the sub-tree view rooted at a.b
     # histories with one assignment finish (15 s); a second assignment on CBMC's dynamic objects does not (timeout 300 s, 8 GB; also with a static block pool)
     hist = [((2, 4, 2), (0, 5, 2)), ((4, 1, 5), (0, 1, 2)), ((5, 5, 4), (4, 5, 6)), ((4, 0, 4), (0, 1, 2)), ((3, 3, 3), (0, 2, 1)), ((4, 4, 4), (4, 6, 5)), ((2, 0, 2), (0, 2, 1)), ((1, 4, 5), (0, 5, 6))]
+    hist += [((1, 1, 4), (3, 2, 6))]   # op 3: materialise the view's base node (creates a.b); after an earlier assignment it is a second creation and does not finish (300 s)
     if tier == "thorough":
         allh = [((a, b, c), (x, y, z)) for a in range(6) for b in range(6) for c in range(6) for x in (0, 4) for y in (1, 2, 5, 6) for z in (1, 2, 5, 6)
                 if (x < 4 or a >= 4) and (y < 4 or b >= 4) and (z < 4 or c >= 4)]
         hist = hist + [h for h in allh[::29] if h not in hist]
     for (sq, ops) in hist:
-        qs.append(Q("store_history_p%d%d%d_o%d%d%d" % (sq + ops), "C10/store.c", units=SU, harness_defines={"SEQ": "{%d,%d,%d}" % sq, "OPS": "{%d,%d,%d}" % ops, "NSTEP": 3, "V_NMAX": 32},
+        qs.append(Q("store_history_p%d%d%d_o%d%d%d" % (sq + ops), "C10/store.c", units=SU, harness_defines=dict({"SEQ": "{%d,%d,%d}" % sq, "OPS": "{%d,%d,%d}" % ops, "NSTEP": 3, "V_NMAX": 32}, **({"VIEWOFF": 1} if (sum(sq) + sum(ops)) % 2 else {})),
                     unwind_default=8, flags=["--memory-leak-check", "--max-field-sensitivity-array-size", "200"],
                     fp=[(r"getnode", ["verif_gnode_pos_u", "node_locate"]), (r"^collectionEach", ["h_item"]), (r"^mpt_(array_clone|path_fini):", ["h_buf_none"]),
                         (r"^harness: .*vm\._vptr\)\.unref", ["configUnref"]), (r"^(configRemove|mpt_node_assign|mpt_node_destroy): .*unref", ["h_unref"]),
-                        (r"^configAssign: .*convert", ["h_conv"]), (r"^h_gconv", ["configConv"]), (r"^configQuery: .*fcn", ["h_handler"]),
+                        (r"^configAssign: .*convert", ["h_conv"]), (r"^h_g(conv|node)", ["configConv"]), (r"^configQuery: .*fcn", ["h_handler"]),
                         (r"\.query\)", ["configQuery"]), (r"\.assign\)", ["configAssign"]), (r"\.remove\)", ["configRemove"])],
                     stubs=["libc.c", "libc_loops.c", "no_traits.c"], unwind={"memcpy": 20, "memset": 60, "memmove": 20, "strlen": 8, "strncmp": 8, "strcmp": 8, "strlen.0": 8, "strncmp.0": 8, "strcmp.0": 8},
                     timeout=300,
-                    bounds="3-step history with one assignment over the path universe {a, a.b, a.c, b, a.b.c, a.b.a}: paths %s and operations %s (0 assign, 1 remove, 2 query, +4 through the sub-tree view at a.b) "
+                    bounds="3-step history with one assignment over the path universe {a, a.b, a.c, b, a.b.c, a.b.a}: paths %s and operations %s (0 assign, 1 remove, 2 query, 3 materialise the view's base node, +4 through the sub-tree view at a.b; the view is created from an offset-0 or an offset-2 path depending on the history) "
                            "fixed by the driver (case split; a symbolic operation makes the heap shape symbolic and does not finish), assigned values symbolic; then all 6 paths are queried and the store is cleared" % (sq, ops),
                     outside="value text (mpt_meta_new/mpt_meta_set by contract), histories outside the driver's list, other path sets, C++ private configuration"))
     return qs
